@@ -89,10 +89,10 @@ PROPS = {
  ),
  "C18": dict(
     level="proof",
-    claim="Proof that isequal on fixed-length index arrays is exactly the conjunction of element equalities (both argument orders), that index arrays of different run-time length and ndarrays of different dimension or shape compare false (isequal and isclose), the optional/either/scalar/tuple case tables, and isclose on scalars = |a-b|<eps; for run-time-length shapes (vector, static_vector, mixed) the CFG rule R-EQSHAPE requires the element loop of every instantiation to be entered only past run-time dimension and shape tests that return false; element-wise comparison of equal-shape run-time ndarrays is not decided.",
+    claim="Proof that isequal on fixed-length index arrays is exactly the conjunction of element equalities (both argument orders), that index arrays of different run-time length and ndarrays of different dimension or shape compare false (isequal and isclose), the optional/either/scalar/tuple case tables, and isclose on scalars = |a-b|<eps; for run-time-length shapes (vector, static_vector, mixed) the CFG rule R-EQSHAPE requires the element loop of every instantiation to be entered only past run-time dimension and shape tests that return false; element-wise comparison of equal-shape run-time ndarrays is not decided. (c18b_arrays, constant and run-time shapes, symbolic integer elements) isequal on whole (2,3) arrays: true implies every pair of corresponding elements equal, all pairs equal implies true, one differing pair implies false; another shape or dimension gives false whatever the values; a transposed view compares like the array it denotes.",
     note=E1_NOTE + " " + E2_NOTE,
     technique=E1_TECH + " + CFG dominance rule (shape test before element loop) on instantiations",
-    e1=[dict(tu="c18_isequal.cpp")],
+    e1=[dict(tu="c18_isequal.cpp"), dict(tu="c18b_arrays.cpp"), dict(tu="c18b_arrays_rt.cpp")],
     e2=[dict(rule="R-EQSHAPE"), dict(rule="R-EQLEN"), dict(rule="R-MAYBE.compare")],
     e3=[dict(group="C18")],
     rule=E1_RULE,
